@@ -235,6 +235,42 @@ Definition stream_chunk (checked : bool) (pos read end_ : N) : outcome (N * N) :
     obind (sub_u64 checked read over) (fun buf_end => Ok (pos', buf_end)))
   else Ok (pos', read)).
 
+(** The whole streaming loop.  [reads]: what the successive [file.read(&mut buf)] calls return ([buf] is
+    64 KiB; [0] or the end of the list = end of file).  The result is the list of the [buf_end]s, the sizes
+    of the chunks handed to [response.send]:
+    [loop { read; if read == 0 {break}; pos += read; buf_end = ..; send(&buf[..buf_end]); if pos >= end {break} }] *)
+Definition stream_buf : N := 65536.
+Fixpoint stream_loop (checked : bool) (pos end_ : N) (reads : list N) : outcome (list N) :=
+  match reads with
+  | [] => Ok []
+  | r :: rest =>
+      if r =? 0 then Ok [] else
+      obind (stream_chunk checked pos r end_) (fun pc =>
+      if stream_buf <? snd pc then Panic                                   (* &buf[..buf_end] *)
+      else if end_ <=? fst pc then Ok [snd pc]
+      else obind (stream_loop checked (fst pc) end_ rest) (fun l => Ok (snd pc :: l)))
+  end.
+Fixpoint nsum (l : list N) : N := match l with [] => 0 | x :: r => x + nsum r end.
+(** The reads before the first empty one. *)
+Fixpoint live_reads (reads : list N) : list N :=
+  match reads with
+  | [] => []
+  | r :: rest => if r =? 0 then [] else r :: live_reads rest
+  end.
+(** What a regular file of [file_len] bytes yields from offset [pos] on: full buffers, then the rest, then 0. *)
+Fixpoint file_reads (fuel : nat) (pos file_len : N) : list N :=
+  match fuel with
+  | O => []
+  | S f => if file_len <=? pos then [0]
+           else let r := N.min stream_buf (file_len - pos) in r :: file_reads f (pos + r) file_len
+  end.
+(** The streamed reply: the announced [content-length] and the number of body bytes that follow. *)
+Definition stream_reply (checked : bool) (range : option (N * N)) (file_len : N) : outcome (N * N) :=
+  obind (stream_window checked range file_len) (fun w =>
+  let '(start, end_, len) := w in
+  obind (stream_loop checked start end_ (file_reads (S (N.to_nat (file_len / stream_buf + 2))) start file_len))
+        (fun sent => Ok (len, nsum sent))).
+
 (** ** The request path *)
 
 Definition h_range : bytes := Eval vm_compute in B "range".
@@ -389,16 +425,17 @@ Definition run_pathquery (x : xval) : xval :=
   | _ => bad_input
   end.
 
-(** component stream.window: (L checked (L [range header]) file_len) -> outcome of the announced
-    content-length ([len]); a header that [sanitize_request] refuses is answered 416 by [handle_cache]
+(** component stream.window: (L checked (L [range header]) file_len) -> outcome of (L announced sent): the
+    announced content-length ([len]) and the number of body bytes the loop sends for a regular file of
+    [file_len] bytes; a header that [sanitize_request] refuses is answered 416 by [handle_cache]
     before the extension runs. *)
 Definition run_stream_window (x : xval) : xval :=
   match x with
   | XL [c; h; XN file_len] =>
       match d_bool c, d_option d_B h with
       | Some checked, Some hdr =>
-          x_outcome XN (obind (Range.sanitize_range hdr) (fun range =>
-                        obind (stream_window checked range file_len) (fun t => Ok (snd t))))
+          x_outcome (fun p => XL [XN (fst p); XN (snd p)])
+                    (obind (Range.sanitize_range hdr) (fun range => stream_reply checked range file_len))
       | _, _ => bad_input
       end
   | _ => bad_input
@@ -436,4 +473,7 @@ Definition panics_table : list (bytes * (xval -> xval)) :=
     (B "stream.window", run_stream_window);
     (B "cc.kvarn", run_cc_kvarn);
     (B "explore.conn", run_explore);
+    (B "explore.server", run_explore);
+    (B "explore.file", run_explore);
+    (B "explore.urls", run_explore);
     (B "explore.date", run_explore) ].
